@@ -163,6 +163,42 @@ func c36Cases(ref JobResult) []chainCase {
 			}
 		}
 	}
+	// a message that NAMES the owner as sender but is signed by somebody else (the recipient, an unrelated key):
+	// the DAO balance and every balance except possibly the signer's own fee must stay as they are
+	for _, action := range []string{"dao_transfer", "dao_burn"} {
+		for _, signer := range []string{"A2", "A1", "G"} {
+			action, signer := action, signer
+			t := tx("gov_dao", signer, "from", "D", "action", action, "to", signer, "amount", "7")
+			cases = append(cases, chainCase{Name: fmt.Sprintf("dao/%s/owner-named-signed-by-%s", action, signer), Class: action + "-spoofed-sender", Env: env, Want: []string{"balances", "supply"},
+				Ref: []BlockSpec{{}}, Subject: []BlockSpec{blk(t)},
+				Oracle: func(r, s JobResult) (string, string) {
+					bd := balanceDelta(r, s)
+					desc := fmt.Sprintf("%s naming the DAO owner as sender and %s as recipient, signed by %s: result code %d, balance changes %s", action, signer, signer, lastTx(s).Code, deltaStr(bd))
+					if bd["module:dao"] != 0 || lastTx(s).Code == 0 {
+						return "dao-funds-moved-by-non-owner", desc
+					}
+					for who, d := range bd {
+						if who != signer && who != "module:fee_collector" && d != 0 {
+							return "dao-balances", desc
+						}
+					}
+					return "", ""
+				}})
+		}
+	}
+	// the same for parameter changes: the ACL owner named, somebody else signs
+	for _, signer := range []string{"A2", "D"} {
+		signer := signer
+		t := tx("gov_param", signer, "from", "G", "key", "pos/MaxValidators", "value", `"7"`)
+		cases = append(cases, chainCase{Name: "param/owner-named-signed-by-" + signer, Class: "param-spoofed-sender", Env: env, Want: []string{"balances"},
+			Ref: []BlockSpec{{}}, Subject: []BlockSpec{blk(t)},
+			Oracle: func(r, s JobResult) (string, string) {
+				if lastTx(s).Code == 0 || fmt.Sprint(r.Obs["params"]) != fmt.Sprint(s.Obs["params"]) {
+					return "param-changed-by-non-owner", fmt.Sprintf("parameter change naming the ACL owner as sender, signed by %s: result code %d, parameters changed=%v", signer, lastTx(s).Code, fmt.Sprint(r.Obs["params"]) != fmt.Sprint(s.Obs["params"]))
+				}
+				return "", ""
+			}})
+	}
 	return cases
 }
 
